@@ -21,6 +21,8 @@ pub struct Script {
     pub cut_at: Option<usize>,
     /// do not answer for this long (ms), then close
     pub stall_ms: u64,
+    /// pause this long (ms) between fragments of the answer (a slow but never silent server)
+    pub drip_ms: u64,
 }
 
 #[derive(Clone, Debug)]
@@ -168,7 +170,19 @@ fn reason(code: u16) -> &'static str {
     }
 }
 
-fn write_frag(s: &mut TcpStream, data: &[u8], frag: usize) -> std::io::Result<()> {
+fn write_frag(s: &mut TcpStream, data: &[u8], frag: usize, drip_ms: u64) -> std::io::Result<()> {
+    if drip_ms > 0 {
+        // the response head first, then the rest in `frag`-octet pieces with a pause before each
+        let head_end = data.windows(4).position(|w| w == b"\r\n\r\n").map(|p| p + 4).unwrap_or(0);
+        s.write_all(&data[..head_end])?;
+        s.flush()?;
+        for c in data[head_end..].chunks(frag.max(1)) {
+            std::thread::sleep(Duration::from_millis(drip_ms));
+            s.write_all(c)?;
+            s.flush()?;
+        }
+        return Ok(());
+    }
     if frag == 0 || frag >= data.len() {
         s.write_all(data)?;
         return s.flush();
@@ -240,7 +254,7 @@ fn respond(s: &mut TcpStream, sc: &Script) {
             out.extend_from_slice(body);
         }
     }
-    let _ = write_frag(s, &out, sc.frag);
+    let _ = write_frag(s, &out, sc.frag, sc.drip_ms);
     let _ = s.flush();
     let _ = s.shutdown(std::net::Shutdown::Both);
 }
